@@ -1,4 +1,435 @@
 import MCHap.Model.Reads
+import MCHap.Proofs.Reads
+import Mathlib.Data.List.Basic
+import Mathlib.Data.List.Perm.Basic
 import Mathlib.Tactic
+
+/-!
+# C06 — Read extraction: the matrix fed to inference is exactly the filtered pileup
+
+All statements are about `extract` (the model of `extract_read_variants`), `sampleStats` / `poolRows`
+(`encode_sample_reads`) and `validateRef` (`Locus.validate_reference_alleles`) of `Model/Reads.lean`.
+
+Vocabulary: `used L hdr o k a` — the alignment `a` overlaps the locus window (`fetched`), passes the filter cascade
+(`passes`), its read group maps to the sample key `k` (`keyOf`), and `k` is selected.  `names d k` are the read names of
+sample `k`'s dict in insertion order; `basesAt … k q j` are the (base, phred) pairs aligned to SNV `j` by the used
+alignments named `q`, in file order.
+-/
+set_option linter.unusedSimpArgs false
+set_option linter.unusedVariables false
+
 namespace MCHap.C06
+open MCHap
+
+/-- the alignment contributes to the rows of sample `k` -/
+def used (L : Locus) (hdr : List ReadGroup) (o : ExtractOpts) (k : String) (a : Aln) : Prop :=
+  fetched L a = true ∧ passes o a = true ∧ keyOf hdr o a = some k ∧ selected o k = true
+
+/-- read names of sample `k`, in dict order -/
+def names (d : Data) (k : String) : List String := (comp d k).map Prod.fst
+
+/-- Boolean form of `used` -/
+def usedF (L : Locus) (hdr : List ReadGroup) (o : ExtractOpts) (k : String) (a : Aln) : Bool :=
+  fetched L a && usedB hdr o k a
+
+theorem usedF_iff {L : Locus} {hdr : List ReadGroup} {o : ExtractOpts} {k : String} {a : Aln} :
+    usedF L hdr o k a = true ↔ used L hdr o k a := by
+  simp only [usedF, usedB, used, Bool.and_eq_true, beq_iff_eq]
+  tauto
+
+/-- the alignments of sample `k`, in file order -/
+def usedReads (L : Locus) (hdr : List ReadGroup) (o : ExtractOpts) (k : String) (reads : List Aln) : List Aln :=
+  reads.filter (usedF L hdr o k)
+
+/-- (base, phred) aligned to SNV `j` by the used alignments named `q` -/
+def basesAt (L : Locus) (hdr : List ReadGroup) (o : ExtractOpts) (reads : List Aln) (k q : String) (j : Nat) :
+    List (Char × Nat) :=
+  ((((usedReads L hdr o k reads).filter (fun a => a.qname == q)).flatMap (callsOf L)).filter
+    (fun c => c.1 == j)).map Prod.snd
+
+/-! ### the filter cascade -/
+
+/-- the `if / elif` cascade is the conjunction the property states: mapped, MAPQ ≥ threshold, and not duplicate /
+QC-fail / supplementary unless the keep flag is given. Secondary alignments are *not* filtered. -/
+theorem passes_iff (o : ExtractOpts) (a : Aln) :
+    passes o a = true ↔
+      a.isUnmapped = false ∧ o.minQ ≤ a.mapq ∧ (a.isDuplicate = true → o.skipDup = false) ∧
+        (a.isQcfail = true → o.skipQc = false) ∧ (a.isSupplementary = true → o.skipSupp = false) := by
+  unfold passes
+  cases a.isUnmapped <;> cases a.isDuplicate <;> cases a.isQcfail <;> cases a.isSupplementary <;>
+    cases o.skipDup <;> cases o.skipQc <;> cases o.skipSupp <;> simp
+
+/-! ### rows -/
+
+/-- the per-sample projection of the loop -/
+theorem comp_extract {L : Locus} {hdr : List ReadGroup} {o : ExtractOpts} {reads : List Aln} {d : Data}
+    (h : extract L hdr o reads = .ok d) (k : String) :
+    comp d k = (usedReads L hdr o k reads).foldl (upd L) [] := by
+  unfold extract at h
+  have hfil : usedReads L hdr o k reads = (reads.filter (fetched L)).filter (usedB hdr o k) := by
+    unfold usedReads usedF
+    rw [List.filter_filter]
+    apply List.filter_congr
+    intro a _
+    rw [Bool.and_comm]
+  by_cases hk : k ∈ (initData hdr o).map Prod.fst
+  · obtain ⟨_, hc⟩ := foldlM_step_comp k _ _ _ h hk
+    rw [hc, comp_initData, hfil]
+  · -- no alignment can be used for a key that is not in the header dict
+    have hnone : (reads.filter (fetched L)).filter (usedB hdr o k) = [] := by
+      rw [List.filter_eq_nil_iff]
+      intro a _ hu
+      exact hk (mem_keys_initData_of_used hu)
+    have hkeys : d.map Prod.fst = (initData hdr o).map Prod.fst := by
+      by_cases hne : (initData hdr o) = []
+      · -- empty dict stays empty
+        have : ∀ (l : List Aln) (d' : Data), l.foldlM (step L hdr o) ([] : Data) = .ok d' → d' = [] := by
+          intro l
+          induction l with
+          | nil => intro d' hh; simp only [List.foldlM_nil, pure, Except.pure] at hh; injection hh with hh; exact hh.symm
+          | cons a t ih =>
+            intro d' hh
+            rw [List.foldlM_cons] at hh
+            cases hs : step L hdr o [] a with
+            | error e => simp [hs, bind, Except.bind] at hh
+            | ok d1 =>
+              simp only [hs, bind, Except.bind] at hh
+              have hd1 : d1 = [] := by
+                unfold step at hs
+                split_ifs at hs
+                · injection hs with hs; exact hs.symm
+                · cases hrg : a.rg with
+                  | none => simp [hrg] at hs
+                  | some rgid =>
+                    simp only [hrg] at hs
+                    cases hsk : sampleKey hdr o.idField rgid with
+                    | none => simp [hsk] at hs
+                    | some k0 =>
+                      simp only [hsk] at hs
+                      split_ifs at hs
+                      · injection hs with hs; exact hs.symm
+                      · cases hrc : readCalls L a with
+                        | error e => simp [hrc] at hs
+                        | ok c => simp only [hrc] at hs; injection hs with hs; rw [← hs]; rfl
+              subst hd1
+              exact ih d' hh
+        rw [hne] at h ⊢
+        rw [this _ _ h]
+      · obtain ⟨x, hx⟩ := List.exists_mem_of_ne_nil _ hne
+        have hx' : x.1 ∈ (initData hdr o).map Prod.fst := List.mem_map_of_mem hx
+        exact (foldlM_step_comp x.1 _ _ _ h hx').1
+    have : comp d k = [] := by
+      unfold comp
+      cases hl : d.lookup k with
+      | none => rfl
+      | some sd =>
+        exfalso
+        apply hk
+        rw [← hkeys]
+        exact (lookup_isSome_iff_mem_keys d k).mp (by simp [hl])
+    rw [this, hfil, hnone]
+    rfl
+
+/-- **insertion order**: the read names of a sample are the names of its used alignments in file order, each kept at
+its first occurrence -/
+theorem rows_order {L : Locus} {hdr : List ReadGroup} {o : ExtractOpts} {reads : List Aln} {d : Data}
+    (h : extract L hdr o reads = .ok d) (k : String) :
+    names d k = appendNew [] ((usedReads L hdr o k reads).map Aln.qname) := by
+  unfold names
+  rw [comp_extract h k, map_fst_foldl_upd]
+  rfl
+
+/-- **one row per read name**: a row exists for `q` in sample `k` iff some alignment that overlaps the locus, passes the
+filters and belongs to `k` is named `q`; and no name has two rows -/
+theorem rows_iff {L : Locus} {hdr : List ReadGroup} {o : ExtractOpts} {reads : List Aln} {d : Data}
+    (h : extract L hdr o reads = .ok d) (k : String) :
+    (∀ q, q ∈ names d k ↔ ∃ a ∈ reads, used L hdr o k a ∧ a.qname = q) ∧ (names d k).Nodup := by
+  rw [rows_order h k]
+  refine ⟨?_, nodup_appendNew List.nodup_nil⟩
+  intro q
+  rw [mem_appendNew]
+  simp only [List.not_mem_nil, false_or, List.mem_map, usedReads, List.mem_filter, usedF_iff]
+  constructor
+  · rintro ⟨a, ⟨ha, hu⟩, rfl⟩; exact ⟨a, ha, hu, rfl⟩
+  · rintro ⟨a, ha, hu, rfl⟩; exact ⟨a, ⟨ha, hu⟩, rfl⟩
+
+/-- a sample whose key is not selected (or not in the header) has no rows -/
+theorem rows_unselected {L : Locus} {hdr : List ReadGroup} {o : ExtractOpts} {reads : List Aln} {d : Data}
+    (h : extract L hdr o reads = .ok d) (k : String) (hk : selected o k = false) : names d k = [] := by
+  rw [rows_order h k]
+  have : usedReads L hdr o k reads = [] := by
+    unfold usedReads
+    rw [List.filter_eq_nil_iff]
+    intro a _ hu
+    have := (usedF_iff.mp hu).2.2.2
+    rw [hk] at this
+    cases this
+  rw [this]; rfl
+
+/-! ### cells -/
+
+/-- the row of read name `q`: every cell is the three-way merge, in file order, of the bases its used alignments
+align to that SNV, starting from the gap `('-', 0)` -/
+theorem cell_spec {L : Locus} {hdr : List ReadGroup} {o : ExtractOpts} {reads : List Aln} {d : Data}
+    (h : extract L hdr o reads = .ok d) (k q : String) (row : Row) (hrow : (comp d k).lookup q = some row) :
+    row.length = L.snvs.length ∧
+      ∀ j, j < L.snvs.length → row[j]? = some (mergeAll ('-', 0) (basesAt L hdr o reads k q j)) := by
+  rw [comp_extract h k, lookup_foldl_upd] at hrow
+  split_ifs at hrow with hnil
+  · simp at hrow
+  · simp only [List.lookup_nil, Option.getD_none, Option.some.injEq] at hrow
+    subst hrow
+    refine ⟨by rw [length_applyCalls]; simp [blankRow], ?_⟩
+    intro j hj
+    rw [getElem?_applyCalls]
+    have : (blankRow L.snvs.length)[j]? = some ('-', 0) := by
+      simp [blankRow, List.getElem?_replicate, hj]
+    rw [this]
+    rfl
+
+/-- when a matrix is returned, every used alignment was walked without a `raise` -/
+theorem used_calls_ok {L : Locus} {hdr : List ReadGroup} {o : ExtractOpts} {reads : List Aln} {d : Data}
+    (h : extract L hdr o reads = .ok d) (k : String) (a : Aln) (ha : a ∈ reads) (hu : used L hdr o k a) :
+    ∃ c, readCalls L a = .ok c := by
+  cases hrc : readCalls L a with
+  | ok c => exact ⟨c, rfl⟩
+  | error e =>
+    exfalso
+    obtain ⟨hf, hp, hk, hs⟩ := hu
+    have : ∃ e', extract L hdr o reads = .error e' := by
+      unfold extract
+      apply foldlM_error_of_mem (step L hdr o) a _ _ (List.mem_filter.mpr ⟨ha, hf⟩)
+      intro d'
+      unfold step
+      simp only [hp, Bool.not_true, Bool.false_eq_true, if_false]
+      unfold keyOf at hk
+      cases hrg : a.rg with
+      | none => simp [hrg] at hk
+      | some rgid =>
+        simp only [hrg, Option.bind_some] at hk
+        simp only [hk, hs, Bool.not_true, Bool.false_eq_true, if_false, hrc]
+        exact ⟨e, rfl⟩
+    obtain ⟨e', he'⟩ := this
+    rw [he'] at h
+    cases h
+
+/-- the bases a used alignment contributes are exactly the query bases at its aligned pairs that fall on an SNV -/
+theorem calls_spec (L : Locus) (a : Aln) (calls : List (Nat × Char × Nat)) (h : readCalls L a = .ok calls) :
+    calls = a.pairs.filterMap (pairCall L a) := readCalls_ok h
+
+/-- the merged character: gap iff nothing is aligned, the common base if all agree, `N` otherwise -/
+theorem mergeChar_spec (bs : List (Char × Nat)) (h : ∀ b ∈ bs, b.1 ≠ '-') :
+    (mergeAll ('-', 0) bs).1 = specChar (bs.map Prod.fst) ∧
+      ((mergeAll ('-', 0) bs).1 = '-' ↔ bs = []) ∧
+      (∀ c, bs ≠ [] → (∀ b ∈ bs, b.1 = c) → (mergeAll ('-', 0) bs).1 = c) ∧
+      (bs ≠ [] → (¬ ∃ c, ∀ b ∈ bs, b.1 = c) → (mergeAll ('-', 0) bs).1 = 'N') := by
+  have h0 := mergeAll_char bs h
+  refine ⟨h0, ?_, ?_, ?_⟩
+  · rw [h0, specChar_eq_gap_iff _ (by simpa using h)]
+    simp
+  · intro c hne hall
+    rw [h0]
+    exact specChar_of_all_eq (by simpa using hne) (by simpa using hall)
+  · intro hne hnot
+    rw [h0]
+    apply specChar_of_not_all_eq
+    rintro ⟨c, hc⟩
+    exact hnot ⟨c, fun b hb => hc b.1 (List.mem_map_of_mem hb)⟩
+
+/-- the cell's character depends only on the multiset of aligned bases: any order of the mates gives the same call -/
+theorem merge_order_independent (bs bs' : List (Char × Nat)) (hp : bs.Perm bs') (h : ∀ b ∈ bs, b.1 ≠ '-') :
+    (mergeAll ('-', 0) bs).1 = (mergeAll ('-', 0) bs').1 := by
+  rw [mergeAll_char bs h, mergeAll_char bs' (fun b hb => h b (hp.mem_iff.mpr hb))]
+  exact specChar_perm (hp.map _)
+
+/-- the summed phred is *not* order independent (three alignments A, C, A give 30 or 60): non-vacuity of the
+restriction of `merge_order_independent` to the character -/
+example : (mergeAll ('-', 0) [('A', 30), ('C', 30), ('A', 30)]).2 ≠ (mergeAll ('-', 0) [('A', 30), ('A', 30), ('C', 30)]).2 := by
+  decide
+
+/-! ### monotonicity in the filter options -/
+
+/-- `o'` keeps at least what `o` keeps: keep flags only turned on, MAPQ threshold only lowered -/
+def Weaker (o o' : ExtractOpts) : Prop :=
+  o'.idField = o.idField ∧ o'.samples = o.samples ∧ o'.minQ ≤ o.minQ ∧
+    (o'.skipDup = true → o.skipDup = true) ∧ (o'.skipQc = true → o.skipQc = true) ∧
+    (o'.skipSupp = true → o.skipSupp = true)
+
+theorem passes_mono {o o' : ExtractOpts} (hw : Weaker o o') (a : Aln) (h : passes o a = true) : passes o' a = true := by
+  rw [passes_iff] at h ⊢
+  obtain ⟨_, _, hq, hd, hqc, hs⟩ := hw
+  obtain ⟨h1, h2, h3, h4, h5⟩ := h
+  refine ⟨h1, by omega, ?_, ?_, ?_⟩
+  · intro ha; have := h3 ha; cases hx : o'.skipDup <;> simp_all
+  · intro ha; have := h4 ha; cases hx : o'.skipQc <;> simp_all
+  · intro ha; have := h5 ha; cases hx : o'.skipSupp <;> simp_all
+
+/-- turning a keep flag on only adds rows; raising the MAPQ threshold only removes rows -/
+theorem filter_monotone {L : Locus} {hdr : List ReadGroup} {o o' : ExtractOpts} {reads : List Aln} {d d' : Data}
+    (hw : Weaker o o') (h : extract L hdr o reads = .ok d) (h' : extract L hdr o' reads = .ok d') (k : String) :
+    ∀ q, q ∈ names d k → q ∈ names d' k := by
+  intro q hq
+  obtain ⟨a, ha, ⟨hf, hp, hk, hs⟩, hn⟩ := ((rows_iff h k).1 q).mp hq
+  refine ((rows_iff h' k).1 q).mpr ⟨a, ha, ⟨hf, passes_mono hw a hp, ?_, ?_⟩, hn⟩
+  · simpa [keyOf, hw.1] using hk
+  · simpa [selected, hw.2.1] using hs
+
+/-- non-vacuity: a duplicate-flagged record passes only when the keep flag is on -/
+example :
+    let a : Aln := { qname := "r", contig := "c", flag := 0x400, mapq := 60, pos := 0, cigar := [(1, .M)],
+                     seq := ['A'], quals := some [30], rg := some "g", refBases := some ['A'] }
+    passes {} a = false ∧ passes { skipDup := false } a = true := by decide
+
+/-! ### statistics -/
+
+theorem length_of_mapM_some {α β} (f : α → Option β) : ∀ (l : List α) (l' : List β),
+    l.mapM f = some l' → l'.length = l.length := by
+  intro l
+  induction l with
+  | nil => intro l' h; simp at h; subst h; rfl
+  | cons a t ih =>
+    intro l' h
+    rw [List.mapM_cons] at h
+    cases hf : f a with
+    | none => simp [hf] at h
+    | some b =>
+      cases ht : t.mapM f with
+      | none => simp [hf, ht] at h
+      | some bs =>
+        simp [hf, ht] at h
+        subst h
+        simp [ih bs ht]
+
+/-- RCOUNT = number of rows; SNVDP_j = number of non-gap cells in column j; RCALLS = number of cells holding a listed
+allele; the counts of the de-duplicated reads sum to RCOUNT -/
+theorem stats_consistent (L : Locus) (err : Rat) (phred : Option (List (Nat × Rat))) (rows : List Row) :
+    let s := sampleStats L err phred rows
+    s.rcount = rows.length ∧
+      s.snvdp.length = L.snvs.length ∧
+      (∀ j, j < L.snvs.length → s.snvdp[j]? = some (rows.countP (fun r => (r.getD j ('-', 0)).1 != '-'))) ∧
+      s.rcalls = ((rows.map (rowCalls L)).map (fun c => c.countP Option.isSome)).sum ∧
+      (∀ ds, s.dists = some ds → (ds.map Prod.snd).sum = s.rcount) := by
+  refine ⟨rfl, by simp [sampleStats], ?_, rfl, ?_⟩
+  · intro j hj
+    simp [sampleStats, snvDepth, hj]
+  · intro ds hds
+    simp only [sampleStats] at hds
+    cases hm : rows.mapM (rowDist L ((L.snvs.map (fun s => s.alleles.length)).foldl max 0) err phred) with
+    | none => simp [hm] at hds
+    | some dl =>
+      simp only [hm, Option.map_some, Option.some.injEq] at hds
+      subst hds
+      rw [sum_snd_uniqueCounts]
+      simp only [sampleStats]
+      exact length_of_mapM_some _ _ _ hm
+
+/-- the de-duplicated reads are pairwise distinct, are exactly the distinct inputs, and each count is the multiplicity -/
+theorem uniqueCounts_spec {α : Type} [BEq α] [LawfulBEq α] (l : List α) :
+    ((uniqueCounts l).map Prod.fst).Nodup ∧ (∀ x, x ∈ (uniqueCounts l).map Prod.fst ↔ x ∈ l) ∧
+      (∀ xc ∈ uniqueCounts l, xc.2 = l.count xc.1) ∧ ((uniqueCounts l).map Prod.snd).sum = l.length := by
+  have hm : (uniqueCounts l).map Prod.fst = uniqueFirst l [] := by
+    unfold uniqueCounts; rw [List.map_map]; exact List.map_id _
+  refine ⟨hm ▸ nodup_uniqueFirst l [], ?_, ?_, sum_snd_uniqueCounts l⟩
+  · intro x; rw [hm, mem_uniqueFirst]; simp
+  · intro xc hxc
+    unfold uniqueCounts at hxc
+    obtain ⟨x, _, rfl⟩ := List.mem_map.mp hxc
+    rfl
+
+/-- DP = `np.round(mean(SNVDP))`: within one half of the mean, ties to even -/
+theorem dp_round (s n : Nat) (hn : 0 < n) :
+    2 * (roundHalfEven s n * n) ≤ 2 * s + n ∧ 2 * s ≤ 2 * (roundHalfEven s n * n) + n ∧
+      (2 * (s % n) = n → roundHalfEven s n % 2 = 0) := roundHalfEven_spec s n hn
+
+example : roundHalfEven 5 2 = 2 ∧ roundHalfEven 7 2 = 4 ∧ roundHalfEven 7 3 = 2 ∧ roundHalfEven 8 3 = 3 := by decide
+
+/-! ### reference consistency -/
+
+/-- an alignment that would be used and whose MD-derived reference base at a covered SNV differs (case-insensitively)
+from the SNV's REF makes the whole extraction an error — never a matrix -/
+theorem ref_mismatch_is_error (L : Locus) (hdr : List ReadGroup) (o : ExtractOpts) (reads : List Aln) (k : String)
+    (a : Aln) (ha : a ∈ reads) (hu : used L hdr o k a)
+    (hm : ∃ x ∈ a.pairs.zip (a.refBases.getD []), ∃ j ra,
+        L.idxOfPos x.1.2 = some j ∧ L.refAllele j = some ra ∧ ra.toUpper ≠ x.2.toUpper) :
+    ∃ e, extract L hdr o reads = .error e := by
+  obtain ⟨hf, hp, hk, hs⟩ := hu
+  unfold extract
+  apply foldlM_error_of_mem (step L hdr o) a _ _ (List.mem_filter.mpr ⟨ha, hf⟩)
+  intro d
+  unfold step
+  simp only [hp, Bool.not_true, Bool.false_eq_true, if_false]
+  unfold keyOf at hk
+  cases hrg : a.rg with
+  | none => simp [hrg] at hk
+  | some rgid =>
+    simp only [hrg, Option.bind_some] at hk
+    simp only [hk, hs, Bool.not_true, Bool.false_eq_true, if_false]
+    have : ∃ e, readCalls L a = .error e := by
+      unfold readCalls
+      cases hrb : a.refBases with
+      | none => exact ⟨_, rfl⟩
+      | some rb =>
+        simp only
+        split_ifs
+        · exact ⟨_, rfl⟩
+        · rw [hrb] at hm
+          exact callsOfPairs_error_of_mismatch L a _ hm
+    obtain ⟨e, he⟩ := this
+    exact ⟨e, by rw [he]⟩
+
+/-- non-vacuity of `ref_mismatch_is_error`, and the consistent twin gives a matrix -/
+example :
+    (match extract { contig := "c", start := 0, stop := 4, snvs := [{ pos := 1, alleles := ['A', 'C'] }] }
+        [("g", "s")] {}
+        [{ qname := "r", contig := "c", flag := 0, mapq := 60, pos := 0, cigar := [(3, .M)], seq := ['G', 'C', 'T'],
+           quals := some [30, 30, 30], rg := some "g", refBases := some ['G', 'T', 'T'] }] with
+      | .error .refMismatch => true
+      | _ => false) = true ∧
+    (match extract { contig := "c", start := 0, stop := 4, snvs := [{ pos := 1, alleles := ['A', 'C'] }] }
+        [("g", "s")] {}
+        [{ qname := "r", contig := "c", flag := 0, mapq := 60, pos := 0, cigar := [(3, .M)], seq := ['G', 'C', 'T'],
+           quals := some [30, 30, 30], rg := some "g", refBases := some ['G', 'a', 'T'] }] with
+      | .ok [(_, [(_, [('C', 30)])])] => true
+      | _ => false) = true := by
+  decide
+
+/-- `Locus.validate_reference_alleles`: accepted iff every SNV's REF equals the base of the (upper-cased) reference
+sequence at its position; any disagreement is an error -/
+theorem validateRef_ok_iff (seq : List Char) (start : Nat) (snvs : List Snv) :
+    validateRef seq start snvs = .ok ↔
+      ∀ s ∈ snvs, ∃ ra, s.alleles.head? = some ra ∧ pyIndex seq ((s.pos : Int) - (start : Int)) = some ra := by
+  induction snvs with
+  | nil => simp [validateRef]
+  | cons s t ih =>
+    unfold validateRef
+    cases hh : s.alleles.head? with
+    | none => simp [hh]
+    | some ra =>
+      cases hp : pyIndex seq ((s.pos : Int) - (start : Int)) with
+      | none => simp [hh, hp]
+      | some c =>
+        by_cases hc : c = ra
+        · subst hc; simp [hh, hp, ih]
+        · have hc' : ¬ ra = c := fun e => hc e.symm
+          simp [hh, hp, hc, hc']
+
+/-- inside the sequence `pyIndex` is plain indexing (the window of a locus contains its SNVs) -/
+theorem pyIndex_inside {α} (l : List α) (start pos : Nat) (h : start ≤ pos) :
+    pyIndex l ((pos : Int) - (start : Int)) = l[pos - start]? := by
+  unfold pyIndex
+  have : (0 : Int) ≤ (pos : Int) - (start : Int) := by omega
+  simp only [this, if_true]
+  congr 1
+  omega
+
+/-! ### the CIGAR walk -/
+
+/-- pysam's walk (`Aln.pairs`) is the SAM-specification walk (`Aln.samPairs`) on every record without a padding op -/
+theorem pairs_spec (a : Aln) (h : ∀ x ∈ a.cigar, x.2 ≠ CigarOp.P) : a.pairs = a.samPairs :=
+  alignedPairsFrom_noP a.cigar 0 a.pos h
+
+/-- machine-checked witness of the padding deviation: `3M2P3M` -/
+example : alignedPairsFrom true [(3, .M), (2, .P), (3, .M)] 0 5 ≠ alignedPairsFrom false [(3, .M), (2, .P), (3, .M)] 0 5 := by
+  decide
+
 end MCHap.C06
